@@ -162,6 +162,15 @@ func C08(c *hx.Ctx) {
 	for i := 0; i < nb && i < len(hb); i++ {
 		jobs = append(jobs, job{cfgs[r.Intn(len(cfgs))], hb[i], c.Seed + int64(i)*31})
 	}
+	// marginally compressible data at every alphabet size of the sensitive band, with a Flush in the middle
+	for _, h := range hb {
+		if len(h.Hist) == 4 && h.Hist[0] == "W140Kn" && h.Hist[1] == "F" && h.Hist[2] == "W140Kn" && h.Hist[3] == "C" {
+			for k := 0; k < 10; k++ {
+				jobs = append(jobs, job{cfgs[[]int{2, 4}[k%2]], h, c.Seed + int64(k)})
+			}
+			break
+		}
+	}
 	c.Logf("%d small histories, %d big histories, %d jobs", len(hs), len(hb), len(jobs))
 	var mu sync.Mutex
 	var tr bytes.Buffer
